@@ -177,6 +177,13 @@ class ScriptVal:
         return f"Val(@{self.idx})"
 
 
+class BadReprError(Exception):
+    """An error whose repr() itself fails (a repr that dereferences a connection that is gone)."""
+
+    def __repr__(self):
+        raise RuntimeError("no repr for you")
+
+
 class JobCancelled(asyncio.CancelledError, Exception):
     """The compatibility idiom from when CancelledError moved under BaseException: still an instance of the cancellation type."""
 
@@ -199,12 +206,20 @@ def make_exc(name: str):
         return BadStrError("injected")
     if name == "NonStrError":
         return NonStrError("injected")
+    if name == "BadReprError":
+        return BadReprError("injected")
     if name == "StopIteration":
         return StopIteration("injected")
     if name == "KeyError":
         return KeyError("injected")
     if name == "ValueError":
         return ValueError("injected")
+    if name == "OverflowError":
+        return OverflowError("(34, 'Numerical result out of range')")
+    if name == "ZeroDivisionError":
+        return ZeroDivisionError("float division by zero")
+    if name == "AttributeError":
+        return AttributeError("'NoneType' object has no attribute 'attempt'")
     if name == "TypeError":
         return TypeError("before_sleep() missing 1 required keyword-only argument: 'registry'")
     if name == "AbortRetryError":
@@ -579,6 +594,23 @@ class Harness:
         return ctxs
 
     def op_body(self):
+        if self.sc.get("op_cm") and not any(o[0] == "sp" and o[1] == "nested_exh" for o in self.cur.env["outcomes"]) and "frozen" not in (self.sc.get("exc_family") or ()):
+            # the operation does its work inside a generator-based context manager (`with transaction(): ...`, an ExitStack): whatever
+            # it raises - its own errors, AbortRetryError, cancellation types - travels through contextlib's __exit__, which assigns
+            # __traceback__ on the exception object.  (Frozen error objects cannot make that trip - the library's own
+            # RetryExhaustedError included, see DESIGN section 8 - so scenarios raising those are left alone.)
+            import contextlib
+
+            @contextlib.contextmanager
+            def transaction():
+                yield
+
+            with contextlib.ExitStack() as stack:
+                stack.enter_context(transaction())
+                return self._op_body()
+        return self._op_body()
+
+    def _op_body(self):
         rec = self.cur
         i = self.count("op")
         rec.trace.append(("op", i + 1, self.now()))
@@ -675,6 +707,9 @@ class Harness:
         if rec.env.get("abort_after_terminal") and any(e_[0] == "metric" and e_[1] in _TERMINAL_EVENTS for e_ in rec.trace):
             ans = True  # a shutdown flag raised by whoever watches the event stream, once the run has reported its terminal event
         rec.trace.append(("poll", i, ans, self.now()))
+        if i == 0 and rec.env.get("preflight_poll_dur"):
+            # the predicate's first evaluation costs time (it lazily connects to a flag service): billed to the call like everything else
+            self.world.t += rec.env["preflight_poll_dur"]
         x = self.cb_fault("abort_if", defer=True)
         if x is not None:
             # "should I stop?" answered with an object that cannot be reduced to a bool (an array, a lazy proxy whose backend is gone)
@@ -1185,6 +1220,30 @@ class Harness:
         return rec
 
 
+def _elsewhere(fault, step):
+    """Perform one step of a coroutine - here: the one that ends it.  With fault["thread"] == "other" the step runs on a different OS
+    thread than the one that started the coroutine (an event loop in a worker thread shut down from the main thread; a coroutine
+    closed by whoever drops the last reference)."""
+    if fault.get("thread") != "other":
+        return step()
+    import threading
+
+    box = []
+
+    def run():
+        try:
+            box.append(("ok", step()))
+        except BaseException as x:  # noqa: BLE001
+            box.append(("raise", x))
+
+    t = threading.Thread(target=run)
+    t.start()
+    t.join()
+    if box[0][0] == "raise":
+        raise box[0][1]
+    return box[0][1]
+
+
 def drive(coro, rec=None, fault=None):
     """Manual coroutine driver.  Suspension point k = the k-th time the coroutine yields."""
     sp = 0
@@ -1205,14 +1264,14 @@ def drive(coro, rec=None, fault=None):
                 if fault["exc"] == "close":
                     if rec is not None:
                         rec.trace.append(("thrown", "close", ""))
-                    coro.close()
+                    _elsewhere(fault, coro.close)
                     return ("closed", None)
                 x = make_exc(fault["exc"])
                 if rec is not None:
                     rec.objs["thrown"] = x
                     rec.trace.append(("thrown", fault["exc"], ""))
                 sp += 1
-                coro.throw(x)
+                _elsewhere(fault, lambda: coro.throw(x))
             else:
                 sp += 1
                 coro.send(None)
@@ -1239,7 +1298,13 @@ def run(sc, entry, *, wall_seed=0, wall_mode="jump", manual=True):
     world = env.World(wall_seed=wall_seed, wall_mode=wall_mode)
     # attempt_timeout_s needs asyncio.wait_for, i.e. a running event loop: such scenarios use the real loop
     world.manual = manual and not sc["cfg"].get("attempt_timeout")
-    with env.active(world):
+    import contextlib
+    import warnings
+
+    with env.active(world), (warnings.catch_warnings() if sc.get("warnings_as_errors") else contextlib.nullcontext()):
+        if sc.get("warnings_as_errors"):
+            # the process escalates warnings to errors (python -W error, pytest filterwarnings = error)
+            warnings.simplefilter("error")
         h = Harness(sc, entry, world)
         recs = []
         for k in range(len(sc["calls"])):
